@@ -147,7 +147,7 @@ func C10(c *Ctx) {
 		nRich = 60
 	}
 	for _, s := range corpus.Fixed() {
-		if s.Name == "action_text" || s.Name == "directive_names" || s.Name == "prec_numbers" || s.Name == "utf8_literals" || s.Name == "alias_prectag" || s.Name == "grouped_tokens" || s.Name == "midrule_action" {
+		if s.Name == "action_text" || s.Name == "directive_names" || s.Name == "prec_numbers" || s.Name == "utf8_literals" || s.Name == "alias_prectag" || s.Name == "grouped_tokens" || s.Name == "midrule_action" || s.Name == "leading_zero" {
 			specs = append(specs, s) // canonical rendering and ';' subsets
 		}
 	}
